@@ -1,0 +1,61 @@
+//go:build verif
+
+package estargz
+
+import (
+	"errors"
+	"io"
+)
+
+// Exports for the C04 harness of /verif: chunk lookup and the entry selection of fileReader.ReadAt over an arbitrary
+// chunk table (what a hostile TOC can put into r.chunks).
+
+type verifRecorderC04 struct{ off int64 }
+
+func (r *verifRecorderC04) ReadAt(p []byte, off int64) (int, error) {
+	if r.off < 0 {
+		r.off = off
+	}
+	return 0, errors.New("verif: recorded")
+}
+
+func verifEntsC04(chunks [][2]int64) []*TOCEntry {
+	ents := make([]*TOCEntry, len(chunks))
+	for i, c := range chunks {
+		ents[i] = &TOCEntry{Name: "f", Type: "chunk", ChunkOffset: c[0], ChunkSize: c[1], Offset: 1000 + int64(i), nextOffset: 1 << 30}
+	}
+	if len(ents) > 0 {
+		ents[0].Type = "reg"
+	}
+	return ents
+}
+
+// VerifChunkEntryForOffsetC04 runs Reader.ChunkEntryForOffset for a file whose chunk table is chunks ({ChunkOffset, ChunkSize}).
+func VerifChunkEntryForOffsetC04(chunks [][2]int64, off int64) (chunkOffset, chunkSize int64, ok bool) {
+	ents := verifEntsC04(chunks)
+	r := &Reader{m: map[string]*TOCEntry{"f": ents[0]}, chunks: map[string][]*TOCEntry{}}
+	if len(ents) >= 2 {
+		r.chunks["f"] = ents
+	}
+	e, ok := r.ChunkEntryForOffset("f", off)
+	if !ok {
+		return 0, 0, false
+	}
+	return e.ChunkOffset, e.ChunkSize, true
+}
+
+// VerifFileReaderSelectC04 runs fileReader.ReadAt and reports the index of the entry whose compressed offset it went to read
+// (-1: it returned before reading).
+func VerifFileReaderSelectC04(chunks [][2]int64, size, off int64) (int, error) {
+	rec := &verifRecorderC04{off: -1}
+	fr := &fileReader{
+		r:    &Reader{sr: io.NewSectionReader(rec, 0, 1<<40), toc: &JTOC{}, decompressor: new(GzipDecompressor)},
+		size: size,
+		ents: verifEntsC04(chunks),
+	}
+	_, err := fr.ReadAt(make([]byte, 1), off)
+	if rec.off < 0 {
+		return -1, err
+	}
+	return int(rec.off - 1000), err
+}
